@@ -337,6 +337,50 @@ func c01Sequential(r *core.Run, idx int, rng *rand.Rand) {
 	}
 }
 
+// c01NamedValues: callbacks for a session that has not completed (or does not exist) which carry, besides the id,
+// every name the library's source mentions as a parameter and as a header, all with one value that has a meaning in
+// the protocol (each status code, binding, format ... in turn). Whatever a name and a value may switch on, the reply
+// is no Success and carries no user data.
+func c01NamedValues(r *core.Run, idx int, rng *rand.Rand) {
+	const wl = "named_parameters_with_protocol_values"
+	vals := dictValues()
+	v := vals[idx%len(vals)]
+	state := []string{"pending", "absent", "pending_post"}[(idx/len(vals))%3]
+	canary := fmt.Sprintf("MK%dv", idx)
+	sc := randScenario(rng, canary, false)
+	sc.Done = false
+	e := sc.build()
+	if state == "absent" {
+		e.W.ForgetRequest(sc.S.ID)
+	}
+	extra := dictQueryWith(v, protocolParams...)
+	e.ExtraHeaders = dictHeadersWith(v)
+	rq := env.Req{Path: env.PathLogin, Query: "id=" + url.QueryEscape(sc.S.ID) + "&" + extra, Host: sc.Host}
+	if state == "pending_post" {
+		rq = env.Req{Method: "POST", Path: env.PathLogin, Body: "id=" + url.QueryEscape(sc.S.ID) + "&" + extra, Host: sc.Host}
+	}
+	call := e.Do(rq)
+	class := fmt.Sprintf("named_values|%s|%s", state, v)
+	desc := map[string]any{"state": state, "value_of_every_name": v, "session": sc.S}
+	r.Eval(class)
+	r.Count("callbacks_with_every_name_set_to_a_protocol_value", 1)
+	viol := func(clause, reason string) {
+		r.Violate(core.Violation{Clause: clause, Class: class, Reason: reason, Workload: wl, Index: idx, Case: desc, Observed: call.Describe()})
+	}
+	if call.Panic != "" {
+		viol("panic", call.Panic)
+		return
+	}
+	d := call.D
+	if d.Success() {
+		viol("success_without_completion", "Success although the session named by the caller is "+state)
+		return
+	}
+	if why := leakScan(d, "U_MK"); why != "" {
+		viol("leak_in_non_success_reply", why)
+	}
+}
+
 // c01Live: the stored request is a live record (the object the login UI works on). While the callback is reading
 // it - after its n-th accessor call - the person at the login UI switches to another account and completes the
 // login (or completes it as the same user, or only switches). A Success may only be about the user the record named
@@ -631,6 +675,7 @@ func init() {
 			r.Require("live_non_success", 20)
 			return []core.Workload{
 				{Name: "callback_states", N: c.Pick(720, 7200), Fn: c01Sequential},
+				{Name: "named_parameters_with_protocol_values", N: c.Pick(3*len(dictValues()), 12*len(dictValues())), Fn: c01NamedValues},
 				{Name: "live_record", N: c.Pick(240, 2400), Fn: c01Live},
 				{Name: "concurrent_histories", N: c.Pick(40, 500), Workers: 4, Fn: c01History},
 			}
